@@ -243,6 +243,8 @@ where
         let mut max_edge = self.min.clone();
         let mut n_bins = 0;
         while max_edge <= self.max {
+            #[cfg(feature = "verif_hooks")]
+            crate::verif_hooks::burn();
             max_edge = max_edge + self.bin_width.clone();
             n_bins += 1;
         }
